@@ -495,6 +495,11 @@ func (c *DiskCache) copyFile(file io.ReadSeeker, out OutputID, size int64) error
 			var out2 OutputID
 			h.Sum(out2[:0])
 			if out == out2 {
+				// Storing an output is a use of its file. Without
+				// this, a file that is old enough to be trimmed can
+				// be removed by a concurrent Trim right after we
+				// have pointed a new index entry at it.
+				c.used(name)
 				return nil
 			}
 		}
@@ -515,6 +520,7 @@ func (c *DiskCache) copyFile(file io.ReadSeeker, out OutputID, size int64) error
 		// File now exists with correct size.
 		// Only one possible zero-length file, so contents are OK too.
 		// Early return here makes sure there's a "last byte" for code below.
+		c.used(name)
 		return nil
 	}
 
